@@ -41,18 +41,16 @@ GEN_T = [
     ("GenTagRulesMix.cfg", "TagsFilter, one rule of each kind: <=3 rules x 1 tag of 10, <=2 x <=2 of 4, <=1 x <=3 of 6", True, False),
     ("GenTagRulesTinyT.cfg", "complete product: rule lists <= 3 x tag lists <= 3, four families, 2 templates each, 4 tags", True, False),
     ("GenTagRulesLegacyT.cfg", "legacy filters, 3-5 templates: <=3 rules x 1 tag of 15, <=2 x <=2 of 6, <=1 x <=3 of 6", True, False),
-    ("GenTagRulesEqT.cfg", "TagsFilter, 7 equal/true/false templates: <=3 rules x 1 tag of 15, <=2 x <=2 of 6, <=1 x <=3 of 6", True, False),
+    ("GenTagRulesEqT.cfg", "TagsFilter, 7 equal/true/false templates: <=3 rules x 1 tag of 10, <=2 x <=2 of 6, <=1 x <=3 of 6", True, False),
     ("GenTagRulesPreT.cfg", "TagsFilter, 7 prefix/substring templates: shapes as above", True, False),
     ("GenTagRulesListT.cfg", "TagsFilter, 6 list templates: shapes as above", True, False),
     ("GenTagRulesReT.cfg", "TagsFilter, 6 regex templates: shapes as above", True, False),
-    ("GenTagRulesWideT.cfg", "TagsFilter, all 29 templates: <=2 rules x 1 tag of 15 in addition", True, False),
+    ("GenTagRulesWideT.cfg", "TagsFilter, all 29 templates: <=2 rules x 1 tag of 10 in addition", True, False),
 ]
 MC_T = [
     ("MCTagRulesSmall33.cfg", "design check only: complete product rule lists <= 3 x tag lists <= 3 over 6 tags, four families, 2 templates each", False, False),
-    ("MCTagRulesLegacy33.cfg", "design check only: complete product <= 3 x <= 3 over 6 tags, legacy filters with 3 templates each", False, False),
-    ("MCTagRulesEq33.cfg", "design check only: complete product <= 3 x <= 3 over 6 tags, TagsFilter equal/true/false templates", False, False),
+    ("MCTagRulesLegacy33.cfg", "design check only: complete product <= 3 x <= 3 over 4 tags, legacy filters with 3 templates each", False, False),
     ("MCTagRulesPre33.cfg", "design check only: complete product <= 3 x <= 3 over 6 tags, TagsFilter prefix/substring templates", False, False),
-    ("MCTagRulesList33.cfg", "design check only: complete product <= 3 x <= 3 over 6 tags, TagsFilter list templates", False, False),
     ("MCTagRulesRe33.cfg", "design check only: complete product <= 3 x <= 3 over 6 tags, TagsFilter regex templates", False, False),
     ("MCTagRulesLegacyT.cfg", "design check only: legacy filters with 3-5 templates, <=3 rules x every single tag of 49", False, False),
     ("MCTagRulesEqT.cfg", "design check only: 7 equal/true/false templates, <=3 rules x every single tag of 49", False, False),
